@@ -6,6 +6,7 @@ checks on every case (each reported line is a closed walk of the model's graph; 
 reported lines cover every node that lies on a cycle; the list is empty iff the graph is acyclic).
 -/
 import GontainerModel.Lemmas.Graph
+import GontainerModel.Lemmas.DepGraph
 import GontainerModel.Model.Output
 namespace GM.C07
 open GM GM.Graph GM.Output
@@ -14,9 +15,30 @@ open GM GM.Graph GM.Output
 theorem reach_exact (o : Output) (a : Node) (r : List Node) (h : reach (buildGraph o) a = some r) (b : Node) :
     b ∈ r ↔ Path (buildGraph o) a b := reach_sound_complete _ a r h b
 
+/-- reachability always answers: |V| rounds of frontier expansion close (no fuel artefact) -/
+theorem reach_always_answers (o : Output) (a : Node) : (reach (buildGraph o) a).isSome = true := reach_total _ a
+
 /-- the model's verdict: cyclic iff some node of the dependency graph reaches itself -/
-theorem cyclic_exact (o : Output) (total : ∀ v ∈ (buildGraph o).nodes, (reach (buildGraph o) v).isSome) :
-    hasCycle o = true ↔ ∃ v, Path (buildGraph o) v v := cyclic_iff _ total
+theorem cyclic_exact (o : Output) : hasCycle o = true ↔ ∃ v, Path (buildGraph o) v v := cyclic_iff' _
+
+/-- **the graph is the documented dependency relation**: resource `b` is reachable from resource `a`
+in the graph `buildGraph` constructs (with its auxiliary tag / decorate / decorator nodes) iff `a`
+transitively depends on `b` in the relation the documentation states (`ConfigDep`: own arguments,
+carriers of requested tags, dependencies of decorators attached to carried tags, referenced parameters) -/
+theorem graph_faithful (o : Output) (a b : Res) :
+    Path (buildGraph o) a.node b.node ↔ TC (ConfigDep o) a b :=
+  ⟨tc_of_path o a b, path_of_tc o a b⟩
+
+/-- **the verdict in the documentation's terms**: the configuration is cyclic iff some service or
+parameter transitively depends on itself -/
+theorem cyclic_documented (o : Output) : hasCycle o = true ↔ ∃ a : Res, TC (ConfigDep o) a a := by
+  rw [cyclic_exact]
+  constructor
+  · rintro ⟨v, p⟩
+    obtain ⟨r, pr⟩ := exists_res_cycle o v p
+    exact ⟨r, tc_of_path o r r pr⟩
+  · rintro ⟨a, h⟩
+    exact ⟨a.node, path_of_tc o a a h⟩
 
 /-- what is assumed of the external cycle enumeration -/
 structure CyclesSpec (g : G Node) (cs : List (List Node)) : Prop where
@@ -51,26 +73,18 @@ theorem edges_exact (o : Output) (x y : Node) :
       (∃ s ∈ o.services, (x, y) ∈ serviceEdges s) ∨
       (∃ di ∈ o.decorators.zipIdx, (x, y) ∈ decoratorEdges di.2 di.1) ∨
       (∃ p ∈ o.params, ∃ q ∈ p.dependsOn, x = nParam p.name ∧ y = nParam q) := by
-  unfold buildGraph
-  simp only [List.mem_append, List.mem_flatMap, List.mem_map, Prod.mk.injEq]
-  constructor
-  · rintro ((h | h) | h)
-    · exact Or.inl h
-    · obtain ⟨⟨d, i⟩, hd, he⟩ := h
-      exact Or.inr (Or.inl ⟨(d, i), hd, he⟩)
-    · obtain ⟨p, hp, q, hq, h1, h2⟩ := h
-      exact Or.inr (Or.inr ⟨p, hp, q, hq, h1.symm, h2.symm⟩)
-  · rintro (h | h | h)
-    · exact Or.inl (Or.inl h)
-    · obtain ⟨⟨d, i⟩, hd, he⟩ := h
-      exact Or.inl (Or.inr ⟨(d, i), hd, he⟩)
-    · obtain ⟨p, hp, q, hq, h1, h2⟩ := h
-      exact Or.inr ⟨p, hp, q, hq, h1.symm, h2.symm⟩
+  exact mem_edges o x y
 
 -- non-vacuity: a service cycle through a tag and a decorator
 def demo : Output :=
   { services := [{ name := "a", tags := [{ name := "t", priority := 0 }] }, { name := "b", args := [{ code := "", raw := .null, depTags := ["t"] }] }],
     decorators := [{ tag := "t", decorator := "f", raw := "f", args := [{ code := "", raw := .null, depServices := ["b"] }] }] }
 example : isCycle (buildGraph demo) [nService "a", nDecorate "t", nDecorator 0, nService "b", nTag "t", nService "a"] = true := by decide
+
+-- non-vacuity of `cyclic_documented`: in `demo`, a depends on b through its decorator, b on a through the tag
+example : ConfigDep demo (.service "a") (.service "b") :=
+  ConfigDep.dec (s := { name := "a", tags := [{ name := "t", priority := 0 }] }) (tg := { name := "t", priority := 0 })
+    (d := { tag := "t", decorator := "f", raw := "f", args := [{ code := "", raw := .null, depServices := ["b"] }] }) (i := 0)
+    (by simp [demo]) (by simp) (by simp [demo, List.zipIdx]) rfl (Or.inl (by simp))
 
 end GM.C07
